@@ -75,7 +75,8 @@ def units(tier, seed):
         for o2 in ops2:
             for first in range(len(COMPOSITE)):
                 u.append(["composite", [o1, o2], first])
-    u.append(["sentences", tier])
+    for i in range(0, len(SENTENCES), 40):
+        u.append(["sentences", tier, i])
     return u
 
 
@@ -149,7 +150,7 @@ def expand(unit):
                     ts += [o] + COMPOSITE[r]
                 yield ["t", ts]
     elif kind == "sentences":
-        for s in SENTENCES:
+        for s in SENTENCES[unit[2] : unit[2] + 40]:
             yield ["s", s]
 
 
@@ -173,7 +174,16 @@ SENTENCES = [
     "y ~ f ( a = b | c )",
     "y ~ a + ( b ~ c )",
     "y ~ a ** 2 ** 3 : b * c / d",
+    "y ~ f ( x , 'a  b' ) + g ( \"c\td\" )",
+    "y ~ f ( x , ' a ' )",
 ]
+# chains around a multi-term base: associativity of ** and its precedence against : * / + are only observable here
+for _base in ("( a + b + c )", "( a + b + c + d )"):
+    for _o1, _o2 in itertools.product(["**", ":", "*", "/", "+"], repeat=2):
+        for _x, _y in itertools.product(["2", "3", "e"], repeat=2):
+            SENTENCES.append(f"y ~ {_base} {_o1} {_x} {_o2} {_y}")
+            SENTENCES.append(f"y ~ {_x} {_o1} {_base} {_o2} {_y}")
+SENTENCES = list(dict.fromkeys(SENTENCES))
 
 
 def low_level(formula, add_intercept=True):
